@@ -75,7 +75,7 @@ impl<'a> Gen<'a> {
     self.tag(&format!("matlit-{}", k)); self.vars.push(Var { name: n, ty: Ty::M(k, r, c), mutable: m });
   }
   pub fn binop(&mut self, k: &'static str) {
-    let ops: Vec<(&str, &str)> = match k { "bool" => vec![("&&", "and"), ("||", "or"), ("==", "eq"), ("!=", "neq")], "string" => vec![("==", "eq"), ("!=", "neq")], "f64" | "f32" => vec![("+", "add"), ("-", "sub"), ("*", "mul"), ("/", "div"), ("^", "pow"), ("<", "lt"), (">=", "gte"), ("==", "eq")], _ => vec![("+", "add"), ("*", "mul"), ("<", "lt"), (">", "gt"), ("==", "eq"), ("!=", "neq"), ("<=", "lte")] };
+    let ops: Vec<(&str, &str)> = match k { "c64" | "r64" => vec![("+", "add"), ("-", "sub"), ("*", "mul"), ("==", "eq")], "bool" => vec![("&&", "and"), ("||", "or"), ("==", "eq"), ("!=", "neq")], "string" => vec![("==", "eq"), ("!=", "neq")], "f64" | "f32" => vec![("+", "add"), ("-", "sub"), ("*", "mul"), ("/", "div"), ("^", "pow"), ("<", "lt"), (">=", "gte"), ("==", "eq")], _ => vec![("+", "add"), ("*", "mul"), ("<", "lt"), (">", "gt"), ("==", "eq"), ("!=", "neq"), ("<=", "lte")] };
     let (op, name) = *self.rng.pick(&ops);
     let (a, b) = (self.scalar_operand(k), self.scalar_operand(k));
     let n = self.fresh();
@@ -206,6 +206,8 @@ impl<'a> Gen<'a> {
     // clean mode: only constructs whose bytecode is known to be registered (f64 / bool / string, no scalar '=' and no matrix negate)
     let k = if self.clean { *self.rng.pick(&["f64", "f64", "bool", "string"]) } else { *self.rng.pick(&SKINDS) };
     match roll {
+      // complex and rational scalars (general class): definitions and arithmetic
+      0..=2 if !self.clean && allow_general => { let ck = *self.rng.pick(&["c64", "r64"]); if self.rng.chance(1, 2) { self.define_scalar_literal(ck) } else { self.binop(ck) } self.prog.restricted = false; }
       0..=14 => self.define_scalar_literal(k),
       15..=27 => { let (r, c) = *self.rng.pick(&[(1usize, 3usize), (3, 1), (2, 2), (2, 3), (3, 3), (1, 1), (4, 1), (1, 4), (4, 2), (5, 1), (2, 5)]); let mk = if self.clean { *self.rng.pick(&["f64", "f64", "bool", "string"]) } else { *self.rng.pick(&["f64", "f64", "f64", "u8", "u8", "i64", "i64", "bool", "bool", "string", "string", "u16", "u32", "u64", "u128", "i8", "i16", "i32", "i128", "f32"]) }; self.define_matrix_literal(mk, r, c) }
       28..=45 => self.binop(k),
